@@ -860,6 +860,125 @@ func (g *gen) genSels(parent string, path string, depth int) []*x.Sel {
 			out = append(out[:pos], append([]*x.Sel{c}, out[pos:]...)...)
 		}
 	}
+	// pairs of mergeable selections that carry repeated applications of the repeatable @rtag: the
+	// de-duplication / merging passes may fuse them only when the two lists are equal as MULTISETS
+	// ([X,X] and [X,Y] are equal as sets and have one length)
+	if g.r.Chance(1, 8) {
+		out = g.repDirPair(td, parent, out)
+	}
+	return out
+}
+
+func rtagApp(r *common.Rand) x.Dir {
+	d := x.Dir{Name: "rtag"}
+	if r.Chance(4, 5) {
+		d.Args = append(d.Args, x.Arg{Name: "k", V: &x.Val{K: "int", S: common.PickOf(r, []string{"1", "2"})}})
+	}
+	if len(d.Args) == 0 || r.Chance(1, 3) {
+		d.Args = append(d.Args, x.Arg{Name: "s", V: vstr(common.PickOf(r, []string{"a", "b"}))})
+	}
+	if len(d.Args) == 2 && r.Chance(1, 3) {
+		d.Args[0], d.Args[1] = d.Args[1], d.Args[0]
+	}
+	return d
+}
+
+func cloneDir(d x.Dir) x.Dir {
+	c := x.Dir{Name: d.Name}
+	for _, a := range d.Args {
+		c.Args = append(c.Args, x.Arg{Name: a.Name, V: a.V})
+	}
+	return c
+}
+
+// rtagLists: the directive lists of the earlier and the later selection of a pair
+func rtagLists(r *common.Rand) (a, b []x.Dir, shape string) {
+	xa := rtagApp(r)
+	ya := rtagApp(r)
+	for i := 0; i < 8 && argsCanon(ya.Args) == argsCanon(xa.Args); i++ {
+		ya = rtagApp(r)
+	}
+	za := rtagApp(r)
+	switch r.Pick(8) {
+	case 0, 1:
+		return []x.Dir{xa, cloneDir(xa)}, []x.Dir{cloneDir(xa), ya}, "dup_vs_near"
+	case 2:
+		return []x.Dir{xa, za, cloneDir(xa)}, []x.Dir{cloneDir(za), cloneDir(xa), ya}, "triple_near"
+	case 3:
+		return []x.Dir{xa, ya}, []x.Dir{cloneDir(xa), cloneDir(xa)}, "near_vs_dup"
+	case 4:
+		return []x.Dir{xa, ya}, []x.Dir{cloneDir(ya), cloneDir(xa)}, "permuted"
+	case 5:
+		return []x.Dir{xa, cloneDir(xa)}, []x.Dir{cloneDir(xa), cloneDir(xa)}, "equal_dup"
+	case 6:
+		return []x.Dir{xa, cloneDir(xa)}, []x.Dir{cloneDir(xa)}, "shorter"
+	}
+	return []x.Dir{xa}, []x.Dir{ya}, "single_different"
+}
+
+func (g *gen) repDirPair(td *x.TD, parent string, out []*x.Sel) []*x.Sel {
+	a, b, shape := rtagLists(g.r)
+	var first, second *x.Sel
+	form := g.r.Pick(4)
+	var fields []int
+	for i, s := range out {
+		if s.K == 0 {
+			fields = append(fields, i)
+		}
+	}
+	if form < 2 && len(fields) == 0 {
+		form = 2
+	}
+	switch form {
+	case 0, 1:
+		// an existing field (leaf or with sub-selections) and a copy of it, both keeping what they carry
+		i := common.PickOf(g.r, fields)
+		first = out[i]
+		second = first.Clone()
+		if len(first.Sels) > 0 {
+			g.flag("repdir_composite")
+		} else {
+			g.flag("repdir_leaf")
+		}
+		first.Dirs = append(first.Dirs, a...)
+		if g.r.Chance(1, 2) {
+			second.Dirs = append(second.Dirs, b...)
+		} else {
+			second.Dirs = append(b, second.Dirs...)
+		}
+		switch g.r.Pick(4) {
+		case 0:
+			g.n++
+			f := &x.Frag{Name: "F" + strconv.Itoa(g.n), On: parent, Sels: []*x.Sel{second}}
+			g.frags = append(g.frags, f)
+			second = &x.Sel{K: 2, Name: f.Name}
+			g.flag("spread")
+			g.flag("repdir_via_fragment")
+		case 1:
+			second = &x.Sel{K: 1, Cond: common.PickOf(g.r, []string{"", parent}), Sels: []*x.Sel{second}}
+			g.flag("repdir_via_inline")
+		}
+		pos := i + 1 + g.r.Pick(len(out)-i)
+		out = append(out[:pos], append([]*x.Sel{second}, out[pos:]...)...)
+	case 2:
+		c := common.PickOf(g.r, []string{"", parent, parent})
+		first = &x.Sel{K: 1, Cond: c, Dirs: a, Sels: []*x.Sel{{K: 0, Name: "__typename"}}}
+		second = &x.Sel{K: 1, Cond: c, Dirs: b, Sels: []*x.Sel{{K: 0, Name: "__typename"}}}
+		g.flag("repdir_inline")
+		g.flag("inline_fragment")
+		out = append(out, first, second)
+	default:
+		g.n++
+		f := &x.Frag{Name: "F" + strconv.Itoa(g.n), On: parent, Sels: []*x.Sel{{K: 0, Name: "__typename"}}}
+		g.frags = append(g.frags, f)
+		first = &x.Sel{K: 2, Name: f.Name, Dirs: a}
+		second = &x.Sel{K: 2, Name: f.Name, Dirs: b}
+		g.flag("repdir_spread")
+		g.flag("spread")
+		out = append(out, first, second)
+	}
+	g.flag("repdir_pair")
+	g.flag("repdir_" + shape)
 	return out
 }
 
